@@ -2,6 +2,7 @@ package main
 
 import (
 	"bytes"
+	"encoding/json"
 	"fmt"
 	"math/rand"
 	"os"
@@ -172,7 +173,9 @@ func runWS(env *Env) error {
 			runtime.GOMAXPROCS(prev)
 		}
 		env.W.Emit(Ev{"ev": "reset", "sc": i + 1, "name": name, "args": args, "seed": seed, "hooks": hooks})
-		for _, e := range rec.Events() {
+		evs := rec.Events()
+		annotateTokens(evs)
+		for _, e := range evs {
 			env.W.Emit(e)
 		}
 		if serr != nil {
@@ -183,4 +186,109 @@ func runWS(env *Env) error {
 		env.W.Flush()
 	}
 	return nil
+}
+
+// annotateTokens gives every hook event that belongs to one request the harness call token of that request ("tok").
+// Harness methods carry their token as first parameter and a cancel request names the id it cancels, so the tokens are
+// derived from the req.params (caller side) and main.req.params (main loop) trace points; events carrying a wire id are
+// looked up by id; the main loop handles one request at a time, so its id-less events inherit the token of the latest
+// main.req on the same connection. Only meaningful for single-client scenarios (wire ids are per client).
+func annotateTokens(evs []Ev) {
+	idTok := map[string]int{}
+	tokOf := func(method, params string) (int, bool) {
+		var ps []json.RawMessage
+		if json.Unmarshal([]byte(params), &ps) != nil || len(ps) == 0 {
+			return 0, false
+		}
+		var f float64
+		if json.Unmarshal(ps[0], &f) != nil {
+			return 0, false
+		}
+		if method == "xrpc.cancel" {
+			t, ok := idTok[fmt.Sprintf("n:%v", f)]
+			return t, ok
+		}
+		return int(f), true
+	}
+	// pass 1: ids -> tokens from the caller-side trace point
+	for _, e := range evs {
+		if e["ev"] == "h:req.params" {
+			id, _ := e["id"].(string)
+			m, _ := e["method"].(string)
+			p, _ := e["params"].(string)
+			if t, ok := tokOf(m, p); ok {
+				e["tok"] = t
+				if id != "" && id != "nil" {
+					idTok[id] = t
+				}
+			}
+			delete(e, "params")
+		}
+	}
+	// pass 2: everything with an id; the main loop's current request per connection
+	cur := map[int]int{}
+	curMethod := map[int]string{}
+	var pendingMain Ev
+	lastCaller := -1
+	srvGen := map[int]int{}
+	for _, e := range evs {
+		name, _ := e["ev"].(string)
+		conn, _ := e["conn"].(int)
+		if id, ok := e["id"].(string); ok && id != "nil" {
+			if t, ok := idTok[id]; ok {
+				e["tok"] = t
+			}
+		}
+		switch name {
+		case "h:req.params":
+			if t, ok := e["tok"].(int); ok {
+				lastCaller = t
+			}
+		case "h:req.enq.pre", "h:req.enq", "h:req.ret", "h:req.exiterr":
+			if _, ok := e["tok"]; !ok && lastCaller >= 0 {
+				// id-less request (notification): the caller-side points of one request follow its req.params in the same goroutine;
+				// scenarios issue at most one notification at a time
+				e["tok"] = lastCaller
+			}
+		case "h:main.req":
+			pendingMain = e
+			m, _ := e["method"].(string)
+			curMethod[conn] = m
+			if t, ok := e["tok"].(int); ok {
+				cur[conn] = t
+			} else {
+				delete(cur, conn)
+			}
+		case "h:main.req.params":
+			p, _ := e["params"].(string)
+			if t, ok := tokOf(curMethod[conn], p); ok {
+				cur[conn] = t
+				if pendingMain != nil {
+					pendingMain["tok"] = t
+				}
+			}
+			delete(e, "params")
+		case "h:wl.enter", "h:wl.exit":
+			// the main loop's own write section (requests and notifications; cancel requests are matched through mainpc)
+			if _, ok := e["tok"]; !ok && e["role"] == "client" && e["w"] == "req" && e["method"] != "xrpc.cancel" {
+				if t, ok := cur[conn]; ok {
+					e["tok"] = t
+				}
+			}
+		case "h:main.failfast", "h:inflight.add", "h:write.req.pre", "h:write.req", "h:main.notifdone":
+			if _, ok := e["tok"]; !ok {
+				if t, ok := cur[conn]; ok {
+					e["tok"] = t
+				}
+			}
+		case "h:ws.accept":
+			// server connections in accept order = the client's connection generations 0, 1, ...
+			srvGen[conn] = len(srvGen)
+		}
+		if e["role"] == "server" {
+			if g, ok := srvGen[conn]; ok {
+				e["gen"] = g
+			}
+		}
+	}
 }
